@@ -77,6 +77,17 @@ CLAIMED.update({
             "Allocation measured via runtime.MemStats.TotalAlloc around single-goroutine helper calls; only the framing fields the property lists are set to hostile values.", "DESIGN.md section 5 C19"),
 })
 
+CLAIMED.update({
+    "C06": ("fault_enumeration",
+            "property-based testing (rapid) with exhaustive fault injection inside each generated history: the fault-free run numbers every store call, the history is re-executed once per call position (three failure shapes, provoked cleanup calls, sampled pairs); oracle = model of acknowledged batches vs. visibility on this engine / a fresh engine / after Merge",
+            "Within each generated history every store-call position visible to the harness is enumerated, not sampled; histories themselves are sampled (25 quick / 600 thorough). Covers CreateFile, Write (fail and short write), Close (fail and publish-then-fail), Abort, Update, TombstoneFile.",
+            "Error-means-absent is judged with MemoryMetaStore (atomic Update) as the property states; with FileSystemDataStore as MetaStore only nil-means-visible is judged. Faults are one-shot.", "DESIGN.md section 5 C06"),
+    "C13": ("fault_enumeration",
+            "property-based testing (rapid) with exhaustive fault injection inside each generated population: every store call of a Merge (iterator, CreateFile, OpenFile, Read, Seek, Write, Close, Abort, Update, TombstoneFile) is failed once on a fresh copy; oracle = committed-or-unchanged invariant over MetaStore pointers, file bytes, row multiset, call-log order and the returned error; gated two-Merge schedule for ErrMergeInProgress",
+            "Every call position of the fault-free Merge is enumerated per population (populations sampled: 12 quick / 300 thorough, most with several merge groups). The concurrency clause is checked with a harness-owned schedule (first Merge held inside CreateFile, second held at the end of its iteration until the first returns).",
+            "MemoryMetaStore.Update is atomic; in-memory DataStore deletes tombstoned files immediately.", "DESIGN.md section 5 C13"),
+})
+
 PENDING_REASON ="check not yet built in this revision of /verif (no technical obstacle; see DESIGN.md section 5)"
 
 def main():
